@@ -15,8 +15,10 @@ Record st := mk {
   chan : nat -> list nat;           (* channel id  -> rows where the channel flag is True *)
   col : nat -> list nat;            (* parameter/state column id -> rows where it is not NaN *)
   recs : list nat;                  (* rows referred to by recordings of compartment states *)
-  exts : list nat;                  (* rows referred to by stimuli / clamps *)
-  groups : list (list nat)          (* rows of each named group *)
+  exts : list nat;                  (* rows referred to by stimuli (one entry per stimulated row, repetitions kept) *)
+  clamps : list nat;                (* rows referred to by voltage clamps *)
+  groups : list (list nat);         (* rows of each named group *)
+  trains : list (list (list nat))   (* trainables: per make_trainable call the groups of rows sharing one value *)
 }.
 
 Section Ops.
@@ -34,59 +36,82 @@ Section Ops.
   | Record_ (rows : list nat) | DeleteRecordings (rows : list nat)
   | Stimulate (rows : list nat) | DeleteStimuli (rows : list nat)
   | AddToGroup (g : nat) (rows : list nat)
-  | SetNcomp (s old new : nat).
+  | SetNcomp (s old new : nat)
+  | Clamp (rows : list nat) | DeleteClamps (rows : list nat)       (* inputs, like stimuli *)
+  | SetParam (rows : list nat) | InitStates                        (* values only: no structural effect *)
+  | MakeTrainable (gs : list (list nat))
+  | DeleteTrainables (rows : list nat)
+  | DeleteTrainablesOld (rows : list nat).                         (* before the fix: geometric keys were kept *)
+
+  Definition nonempty (l : list nat) : bool := match l with [] => false | _ => true end.
+  Definition nonempty2 (l : list (list nat)) : bool := match l with [] => false | _ => true end.
+  Definition drop_rows (rows : list nat) (tr : list (list nat)) : list (list nat) :=
+    filter nonempty (map (fun g => diff g rows) tr).
 
   Definition step (s : st) (o : op) : st :=
     match o with
     | Insert ch rows =>
         mk (nrows s) (fupd (chan s) ch (union (chan s ch) rows))
            (fold_left (fun f c => fupd f c (union (f c) rows)) (owns ch) (col s))
-           (recs s) (exts s) (groups s)
+           (recs s) (exts s) (clamps s) (groups s) (trains s)
     | Delete ch rows =>
         mk (nrows s) (fupd (chan s) ch (diff (chan s ch) rows))
            (fold_left (fun f c => fupd f c (diff (f c) (filter (fun r => negb (other_users s ch c r)) rows)))
                       (owns ch) (col s))
-           (recs s) (exts s) (groups s)
+           (recs s) (exts s) (clamps s) (groups s) (trains s)
     | DeleteOld ch rows =>
         mk (nrows s) (fupd (chan s) ch (diff (chan s ch) rows))
            (fold_left (fun f c => fupd f c (diff (f c) rows)) (owns ch) (col s))
-           (recs s) (exts s) (groups s)
-    | Record_ rows => mk (nrows s) (chan s) (col s) (union (recs s) rows) (exts s) (groups s)
-    | DeleteRecordings rows => mk (nrows s) (chan s) (col s) (diff (recs s) rows) (exts s) (groups s)
-    | Stimulate rows => mk (nrows s) (chan s) (col s) (recs s) (exts s ++ rows) (groups s)
-    | DeleteStimuli rows => mk (nrows s) (chan s) (col s) (recs s) (diff (exts s) rows) (groups s)
+           (recs s) (exts s) (clamps s) (groups s) (trains s)
+    | Record_ rows => mk (nrows s) (chan s) (col s) (union (recs s) rows) (exts s) (clamps s) (groups s) (trains s)
+    | DeleteRecordings rows => mk (nrows s) (chan s) (col s) (diff (recs s) rows) (exts s) (clamps s) (groups s) (trains s)
+    | Stimulate rows => mk (nrows s) (chan s) (col s) (recs s) (exts s ++ rows) (clamps s) (groups s) (trains s)
+    | Clamp rows => mk (nrows s) (chan s) (col s) (recs s) (exts s) (union (clamps s) rows) (groups s) (trains s)
+    | DeleteStimuli rows => mk (nrows s) (chan s) (col s) (recs s) (diff (exts s) rows) (clamps s) (groups s) (trains s)
+    | DeleteClamps rows => mk (nrows s) (chan s) (col s) (recs s) (exts s) (diff (clamps s) rows) (groups s) (trains s)
     | AddToGroup g rows =>
-        mk (nrows s) (chan s) (col s) (recs s) (exts s)
+        mk (nrows s) (chan s) (col s) (recs s) (exts s) (clamps s)
            (if g <? length (groups s)
             then map (fun ig => if fst ig =? g then union (snd ig) rows else snd ig) (combine (seq 0 (length (groups s))) (groups s))
             else groups s ++ [rows])
+           (trains s)
     | SetNcomp b old new =>
         (* only allowed without recordings / inputs (the code asserts it); rows of every
            table move with the compartments *)
         mk (nrows s - old + new)
            (fun k => remap_group (chan s k) b old new)
            (fun c => remap_group (col s c) b old new)
-           (recs s) (exts s) (map (fun g => remap_group g b old new) (groups s))
+           (recs s) (exts s) (clamps s) (map (fun g => remap_group g b old new) (groups s)) (trains s)
+    | SetParam _ | InitStates | DeleteTrainablesOld _ => s
+    | MakeTrainable gs => mk (nrows s) (chan s) (col s) (recs s) (exts s) (clamps s) (groups s) (trains s ++ [gs])
+    | DeleteTrainables rows =>
+        mk (nrows s) (chan s) (col s) (recs s) (exts s) (clamps s) (groups s)
+           (filter nonempty2 (map (drop_rows rows) (trains s)))
     end.
 
   Definition valid (s : st) (o : op) : Prop :=
     match o with
     | Insert ch rows | Delete ch rows | DeleteOld ch rows =>
         ch < nchan /\ NoDup (owns ch) /\ Forall (fun r => r < nrows s) rows
-    | Record_ rows | DeleteRecordings rows | Stimulate rows | DeleteStimuli rows => Forall (fun r => r < nrows s) rows
+    | Record_ rows | DeleteRecordings rows | Stimulate rows | DeleteStimuli rows
+    | Clamp rows | DeleteClamps rows | SetParam rows | DeleteTrainables rows | DeleteTrainablesOld rows =>
+        Forall (fun r => r < nrows s) rows
     | AddToGroup g rows => Forall (fun r => r < nrows s) rows
-    | SetNcomp b old new => b + old <= nrows s /\ 0 < old /\ 0 < new /\ recs s = [] /\ exts s = []
+    | SetNcomp b old new => b + old <= nrows s /\ 0 < old /\ 0 < new /\ recs s = [] /\ exts s = [] /\ clamps s = [] /\ trains s = []
+    | InitStates => True
+    | MakeTrainable gs => Forall (Forall (fun r => r < nrows s)) gs
     end.
 
   (* consistency: every table refers to existing rows, and a parameter column is defined
      exactly on the rows of the channels that own it *)
   Definition refs_exist (s : st) : Prop :=
-    Forall (fun r => r < nrows s) (recs s) /\ Forall (fun r => r < nrows s) (exts s) /\
+    Forall (fun r => r < nrows s) (recs s) /\ Forall (fun r => r < nrows s) (exts s) /\ Forall (fun r => r < nrows s) (clamps s) /\
     Forall (Forall (fun r => r < nrows s)) (groups s) /\
-    (forall k, k < nchan -> Forall (fun r => r < nrows s) (chan s k)).
+    (forall k, k < nchan -> Forall (fun r => r < nrows s) (chan s k)) /\
+    Forall (Forall (Forall (fun r => r < nrows s))) (trains s).
   Definition params_where_channel (s : st) : Prop :=
     forall c r, In r (col s c) <-> exists k, k < nchan /\ In c (owns k) /\ In r (chan s k).
   Definition Inv (s : st) : Prop := refs_exist s /\ params_where_channel s.
 
-  Definition init (n : nat) : st := mk n (fun _ => []) (fun _ => []) [] [] [].
+  Definition init (n : nat) : st := mk n (fun _ => []) (fun _ => []) [] [] [] [] [].
 End Ops.
